@@ -58,7 +58,7 @@ def run(ck):
     ck.samples = [l[:160] for _, _, l in cases[:: max(1, len(cases) // 8)]][:8]
     nc.report(ck, fails, corr, what="serialisation")
     ck.assumptions = ["std::istream::read semantics (copies the bytes present, sets failbit on a short read) is modelled by `overlay`",
-                      "cereal archives and operator<< are compared with a byte/text model written in the driver; nothing is proved about cereal",
+                      "cereal archives are compared with a byte/JSON model written in the driver; nothing is proved about cereal; the text form is compared with the extracted Coq printer",
                       "little-endian host"]
     return ck.finish(trusted=["coqc 8.16.1 kernel", "extraction + driver.ml (JSON / text printers are driver glue)", "h_serial.cpp harness (guard objects on both sides), ASan/UBSan", "cereal 1.3 headers"], extra_cov={"params_sha": info})
 
